@@ -47,8 +47,8 @@ structure Method where
   otherLocks  : List String         -- identifiers (≠ receiver) whose instance lock this method takes
   underOther  : List String         -- own methods called (or "#own-lock") while another instance's lock is held
   extCalls    : List String         -- calls `X.F(…)` on identifiers other than the receiver (package functions …)
-  retSlice    : Bool                -- the method's single result is a slice
-  sliceRets   : List String         -- per return statement: "fresh" | "nil" | "call:<own method>" | "stored:<expr>"
+  retSlice    : Bool := false       -- the method's single result is a slice
+  sliceRets   : List String := []   -- per return statement: "fresh" | "nil" | "call:<own method>" | "stored:<expr>"
   paths       : List (List Tok)     -- execution paths (loops unrolled ≤ 2), queue types only
   deriving DecidableEq, Repr
 
